@@ -414,7 +414,9 @@ def run_e2e_tb(case):
                 "workers": {r: json.loads(exp.get_tb_data(r)) for r in sorted(exp.traceview_by_rank)} if exp.rank_cnt != 1 else {},
                 "rank_cnt": exp.rank_cnt}
     with contextlib.redirect_stdout(io.StringIO()):
-        r = stage.e2e([*case["opts"], "--freq", "512:512"], files, keep_dir=True, post=post)
+        # glob: the rank files are named by ONE wildcard pattern instead of a comma-separated list
+        r = stage.e2e([*case["opts"], "--freq", "512:512"], files, keep_dir=True, post=post,
+                      input_glob="*_*.json" if case.get("glob") else None)
     try:
         if r["error"] or r["rc"] != 0:
             return {"err": r["error"] or f"rc={r['rc']}"}
@@ -606,7 +608,8 @@ def gen_e2e_cases(ctx: Ctx):
         yield {"kind": "e2e-tb", "R": rng.choice(ranks), "groups": rng.randint(0, 3), "kernels": rng.randint(1, 3),
                "seed": rng.randint(0, 10 ** 6), "bw": rng.choice([0, 0, 1, 3]),
                "opts": rng.choice([["--tb"], ["--tb", "-P", "everything"], ["--tb", "--disable_file"]]) +
-               rng.choice([[], ["-C", "coll_bw"], ["-C", "power_ts4"], ["-M"], ["--keep_names"], ["--flow"]])}
+               rng.choice([[], ["-C", "coll_bw"], ["-C", "power_ts4"], ["-M"], ["--keep_names"], ["--flow"]]),
+               "glob": rng.random() < 0.3}
     for R in ranks if not ctx.quick() else [2, 3, 5, 8]:
         for bw in (0, 1):
             yield {"kind": "e2e-df", "R": R, "groups": rng.randint(1, 2), "kernels": rng.randint(1, 3),
